@@ -530,3 +530,63 @@ Proof.
   - unfold tail_clean. vm_compute. discriminate.
   - vm_compute. reflexivity.
 Qed.
+
+(* ---- with the library's own preamble: no condition on the header is left ---- *)
+Require Import BS.HeaderFacts.
+Section ReopenOwn.
+Variable p : nat.
+
+Theorem reopen_own fs s uhdr name popt hdropt cb l :
+  let header := params_to_text BSgen.Consts.version (N.of_nat p) ++ uhdr in
+  RepH fs s p (outer header) (outer []) l ->
+  of_name (d_file (s_data s)) = name ++ ext_data -> of_name (ix_file (d_index (s_data s))) = name ++ ext_index ->
+  (len header <= 65535)%N -> (len (encode p l) < 2^64)%N -> (N.of_nat p < 2^64)%N ->
+  (popt = None \/ popt = Some (N.of_nat p)) ->
+  (l = [] \/ tail_clean p (encode p l)) ->
+  last_meta_timestamp p (encode p l) = Ok (full_after p None l) ->
+  match hdropt with HdrIs e => e = uhdr | HdrAny => True end ->
+  exists s', builder_open name popt hdropt [] cb fs = (fs, Ok (s', uhdr))
+    /\ RepH fs s' p (outer header) (outer []) l /\ s_cb s' = cb
+    /\ of_name (d_file (s_data s')) = name ++ ext_data /\ of_name (ix_file (d_index (s_data s'))) = name ++ ext_index.
+Proof.
+  intros header R N1 N2 Hh H64 Hp Hopt TC LM HO.
+  apply (reopen_ok p fs s header uhdr name popt hdropt cb l R N1 N2 Hh H64); try assumption.
+  apply header_roundtrip; assumption.
+Qed.
+
+(* C17: another payload size is demanded: an error, and nothing is touched *)
+Theorem open_other_payload fs name uhdr region q caches cb :
+  let header := params_to_text BSgen.Consts.version (N.of_nat p) ++ uhdr in
+  (len header <= 65535)%N -> (N.of_nat p < 2^64)%N -> q <> N.of_nat p ->
+  fs_get fs (name ++ ext_data) = Some (outer header ++ region) ->
+  series_open name (Some q) caches cb fs = (fs, Err EMismatch).
+Proof.
+  intros header Hh Hp Hq GD.
+  destruct (fwh_open_ok fs (name ++ ext_data) header region Hh GD) as [FO _].
+  unfold series_open. erewrite mbind_ok by exact FO. cbv iota beta.
+  unfold lift at 1. unfold mbind. unfold header. rewrite (header_parse (N.of_nat p) uhdr (Some q) Hp).
+  replace (N.of_nat p =? q)%N with false by (symmetry; apply N.eqb_neq; congruence). reflexivity.
+Qed.
+
+(* C17: another user header is demanded: an error, and no file is touched *)
+Theorem open_other_header fs s uhdr name popt e cb l :
+  let header := params_to_text BSgen.Consts.version (N.of_nat p) ++ uhdr in
+  RepH fs s p (outer header) (outer []) l ->
+  of_name (d_file (s_data s)) = name ++ ext_data -> of_name (ix_file (d_index (s_data s))) = name ++ ext_index ->
+  (len header <= 65535)%N -> (len (encode p l) < 2^64)%N -> (N.of_nat p < 2^64)%N ->
+  (popt = None \/ popt = Some (N.of_nat p)) ->
+  (l = [] \/ tail_clean p (encode p l)) ->
+  last_meta_timestamp p (encode p l) = Ok (full_after p None l) ->
+  e <> uhdr ->
+  builder_open name popt (HdrIs e) [] cb fs = (fs, Err EMismatch).
+Proof.
+  intros header R N1 N2 Hh H64 Hp Hopt TC LM He.
+  destruct R as [RD W _ _].
+  pose proof (rd_file _ _ _ _ _ _ _ _ RD) as [GD _]. pose proof (rd_ix _ _ _ _ _ _ _ _ RD) as [GI _].
+  rewrite N1 in GD. rewrite N2 in GI.
+  destruct (series_open_ok p fs name header uhdr popt cb l W Hh H64 GD GI (header_roundtrip _ uhdr popt Hp Hopt) TC LM)
+    as (s' & SO & _).
+  unfold builder_open. erewrite mbind_ok by exact SO. cbv iota beta.
+  rewrite bytes_eqb_neq by congruence. reflexivity.
+Qed.
+End ReopenOwn.
